@@ -316,6 +316,12 @@ func (progBldr *ProgBuilder) CodePathOper(elem int) {
 		// not implemented
 	case '/':
 		pathOperPush = func(ctx *context) {
+			if ctx.predicateCount > 0 {
+				// An absolute path inside a predicate starts afresh at the
+				// root, not at the step the predicate is filtering.
+				_ = ctx.actualPathStack.PopPath()
+				ctx.actualPathStack.NewPathFromCurrent()
+			}
 			ctx.actualPathStack.PeakPath().SetIsRootBased(true)
 			//ctx.actualPathStack.PushElem("/")
 		}
